@@ -122,3 +122,73 @@ Definition entries_verdict (l : list (lop * list obs)) (q : rq) : N :=
   end.
 
 Definition entries_ok (l : list (lop * list obs)) (q : rq) : bool := N.eqb (entries_verdict l q) 0.
+
+(* ---- lower_sorts / the ids of Sort, Take.sort, Window.sort and Aggregate.compute ----
+   lower_sorts(by) is `by.map(|s| (s.direction, declare_as_column(s.column)))`; declare_as_columns(assigns, true) of an
+   aggregate likewise hands back one id per assignment.  So the id list of
+       Sort            is exactly the ids the last |by| declares handed back, in order            (suffix of the declare window)
+       Aggregate       compute = the ids of the last |compute| declares, in order                 (suffix)
+       Take / Window   sort = the ids of the declares of the transform's prologue (the sort the Flattener carries), which
+                       follow the partition's declares and precede those of the transform itself  (contiguous infix)
+   [dwindow] = per open frame, the ids declare_as_column handed back since the last transform other than a Compute was
+   pushed, in order.  [sorts_verdict] replays a trace and checks the three shapes (0 = all hold; k + 1 = operation k). *)
+Definition dstack := list (list cid).
+
+Fixpoint is_prefix (a l : list cid) : bool :=
+  match a, l with
+  | [], _ => true
+  | x :: a', y :: l' => N.eqb x y && is_prefix a' l'
+  | _ :: _, [] => false
+  end.
+
+Fixpoint is_infix (a l : list cid) : bool :=
+  is_prefix a l || match l with [] => false | _ :: l' => is_infix a l' end.
+
+Definition is_suffix (a l : list cid) : bool := is_prefix (rev a) (rev l).
+
+(* lower_sorts on the results of its declares *)
+Definition lower_sorts_m (dirs : list dir) (results : list cid) : sorts := combine dirs results.
+
+Definition sorts_check (top : list cid) (t : transform) : bool :=
+  match t with
+  | TSort srt => is_suffix (sorts_cids srt) top
+  | TAggregate _ c => is_suffix c top
+  | TTake _ _ srt => is_infix (sorts_cids srt) top
+  | TCompute _ _ (Some w) _ => is_infix (sorts_cids (w_sort w)) top
+  | _ => true
+  end.
+
+Definition dstep (s s' : lstate) (o : op) (ds : dstack) : option dstack :=
+  match o with
+  | ODeclExtern _ _ => Some ds
+  | OBegin _ _ _ _ | OBeginLoop => Some ([] :: ds)
+  | ODeclare node e w agg _ =>
+      match lookup_node (mapping s') node with
+      | Some (MCompute c) =>
+          if N.eqb (next_cid s') (next_cid s) then Some (add_top [c] ds)
+          else if sorts_check (top_of ds) (TCompute c e w agg) then Some (add_top [c] ds) else None
+      | _ => None
+      end
+  | OPush t => if sorts_check (top_of ds) t then Some (reset_top ds) else None
+  | OInstance _ _ _ _ => Some (reset_top ds)
+  | OEndTable _ _ => Some (tl ds)
+  | OEndInline _ _ _ | OEndLoop => Some (reset_top (tl ds))
+  end.
+
+Fixpoint srun (s : lstate) (ds : dstack) (l : list (lop * list obs)) (k : N) : N :=
+  match l with
+  | [] => 0
+  | (lo, _) :: l' =>
+      match elaborate s lo with
+      | Some o => match step s o with
+                  | Some s' => match dstep s s' o ds with
+                               | Some ds' => srun s' ds' l' (k + 1)
+                               | None => k + 1
+                               end
+                  | None => k + 1
+                  end
+      | None => k + 1
+      end
+  end.
+
+Definition sorts_verdict (l : list (lop * list obs)) : N := srun init [] l 0.
